@@ -63,9 +63,10 @@ type CtxIn struct {
 }
 
 type Case struct {
-	Kind   string   `json:"kind"` // contains | clamp | parsetimerange | parserange | mutes | stage | sys
+	Kind   string   `json:"kind"` // contains | clamp | parsetimerange | parserange | mutes | stage | sys | cfg
 	Clamp  []int    `json:"clamp,omitempty"` // n, lo, hi
 	Sys    *SysIn   `json:"sys,omitempty"`
+	Cfg    *CfgIn   `json:"cfg,omitempty"`
 	YAML   string   `json:"yaml,omitempty"`
 	Want   *Intent  `json:"want,omitempty"`
 	Insts  []InstIn `json:"insts,omitempty"`
@@ -1291,7 +1292,7 @@ func TestCheck(t *testing.T) {
 		nCorpus := len(cases)
 		r := vh.NewRand(env.Seed)
 		nInst := 110
-		for i, n := 0, env.N(280, 10); i < n; i++ {
+		for i, n := 0, env.N(280, 6); i < n; i++ {
 			cases = append(cases, genContainsCase(r.Fork(), nInst))
 		}
 		cases = append(cases, genParseCases(r.Fork(), env.N(300, 10))...)
@@ -1307,6 +1308,9 @@ func TestCheck(t *testing.T) {
 		}
 		for i, n := 0, env.N(60, 10); i < n; i++ {
 			cases = append(cases, genSysCase(r.Fork()))
+		}
+		for i, n := 0, env.N(150, 10); i < n; i++ {
+			cases = append(cases, genCfgCase(r.Fork()))
 		}
 		// spread the heavy contains cases evenly over the shards (the order is still a function of the seed)
 		gen := cases[nCorpus:]
@@ -1331,6 +1335,8 @@ func TestCheck(t *testing.T) {
 			rn.stage(c)
 		case "sys":
 			rn.sys(c)
+		case "cfg":
+			rn.cfg(c)
 		default:
 			t.Fatalf("unknown case kind %q", c.Kind)
 		}
